@@ -437,3 +437,45 @@ for _p in _properties():
          clause="Names only: the rule decides that an attribute name read in the property's anchor code exists at all (a method that "
                 "was removed or renamed while a caller remained, a misspelt attribute). Reviewed exceptions: generic.UNDEFINED_OK; reads "
                 "off modules imported from outside the package and names probed with hasattr/getattr are not judged.")(_make_g3(_p["id"]))
+
+
+# ---------------------------------------------------------------------------------------------------------------------------
+#  G4  a constructor stores its parameter, not a constant, under the parameter's name
+#      (`def __init__(self, ..., boost=1.0): self.boost = 1.0` silently drops what the caller asked for)
+
+def shadowed_ctor_parameters(prog, funcs):
+    n = 0
+    out = []
+    for f in funcs:
+        if f.name != "__init__" or f.cls is None:
+            continue
+        a = f.node.args
+        names = [x.arg for x in a.args + a.kwonlyargs][1:]
+        used = set(x.id for x in ast.walk(f.node) if isinstance(x, ast.Name))
+        n += 1
+        for q in names:
+            if q in used:
+                continue
+            for st in ast.walk(f.node):
+                if isinstance(st, ast.Assign) and any(norm.canon(t) == "self." + q for t in st.targets) and isinstance(st.value, ast.Constant):
+                    out.append((f, q, st))
+    return n, out
+
+
+def _make_g4(pid):
+    def g4(ctx):
+        prog = ctx.prog
+        funcs = anchor_funcs(prog, pid)
+        n, bad = shadowed_ctor_parameters(prog, funcs)
+        ctx.ob("%s anchor files" % pid, True, "%d constructors examined for parameters replaced by a constant" % n)
+        for f, q, st in bad:
+            ctx.ob(f, False, "self.%s is bound from the parameter `%s`" % (q, q),
+                   detail="the constructor never reads `%s` and stores the constant %s under its name" % (q, norm.canon(st.value)),
+                   loc=ctx.nodeloc(f, st))
+    return g4
+
+
+for _p in _properties():
+    rule(_p["id"], "G4", "K6", "a constructor stores its parameter, not a constant, under the parameter's name",
+         clause="`def __init__(self, p=1.0): self.p = 1.0` with p never read: the object ignores what it was constructed with. Decides the "
+                "binding only.")(_make_g4(_p["id"]))
